@@ -178,11 +178,19 @@ def run_property(prop, tier, seed):
     by_engine = {}
     for h in hs:
         by_engine.setdefault(h["engine"], []).append(h)
+    # one process at a time per engine, from the first build to the last replay: counterexample extraction and
+    # native replay rebuild in the same work and target directories as the run itself (two concurrent `cargo kani`
+    # in one target directory corrupt each other's goto binaries - observed as spurious `free` / dereference failures)
+    held = []
+    for ename in sorted(by_engine):
+        lk = open(os.path.join(VERIF, f".lock-{ename}"), "w")
+        fcntl.flock(lk, fcntl.LOCK_EX)
+        held.append(lk)
+    run_property._held_locks = held  # released when the process exits
     for ename, ehs in by_engine.items():
         eng = engines.ENGINES[ename]
         canaries = [h for h in allh if h["engine"] == ename and h["name"].startswith("canary")]
-        with open(os.path.join(VERIF, f".lock-{ename}"), "w") as lk:
-            fcntl.flock(lk, fcntl.LOCK_EX)
+        if True:
             res = eng.run(ehs + canaries, tier, log)
         evidence_units.append(res["unit"])
         if res.get("fatal"):
